@@ -571,3 +571,347 @@ Proof.
   apply Nat.eqb_eq in H1. apply Nat.eqb_eq in H2. apply Nat.eqb_eq in H3. apply diagram_matches_sound in H4.
   exists ta, tb, g. repeat split; try assumption; apply H4.
 Qed.
+
+(* ==== the link Hamiltonian: the state holds a link node the operator does not have =========================================== *)
+(* sandwich_subtree when the neighbour left out is called `next` in the ket / conjugate node and `nexto` in the operator
+   node (contract_any(a, link_id, ...): the ket's neighbour is the link node, the operator's is the far end of the edge) *)
+Theorem sandwich_subtree_axes_gen kt ot bt kn on bn next nexto blocks (w y x : id -> wire) (blk : id -> garr) wj o oo oi bo pre post :
+  neighbouring_nodes kn = pre ++ next :: post ->
+  NoDup (pre ++ next :: post) ->
+  Permutation (neighbouring_nodes on) (nexto :: pre ++ post) ->
+  NoDup (nexto :: pre ++ post) ->
+  Permutation (neighbouring_nodes bn) (pre ++ next :: post) ->
+  gaxes kt = map w pre ++ wj :: map w post ++ [o] ->
+  gaxes ot = map y (neighbouring_nodes on) ++ [oo; oi] ->
+  gaxes bt = map x (neighbouring_nodes bn) ++ [bo] ->
+  (forall nb, In nb (pre ++ post) -> aget nb blocks = Some (blk nb) /\ gaxes (blk nb) = [w nb; y nb; x nb]) ->
+  o <> oi -> oo <> bo ->
+  exists r, sandwich_subtree kt ot bt kn on bn next blocks = Some r /\
+    gaxes r = [wj; y nexto; x next] /\
+    gatoms r = ((gatoms kt ++ flat_map (fun nb => gatoms (blk nb)) (pre ++ post)) ++ gatoms ot) ++ gatoms bt /\
+    gbnd r = map x (pre ++ post) ++
+             (map y (pre ++ post) ++
+              (rev (map w (pre ++ post)) ++ gbnd kt ++ flat_map (fun nb => gbnd (blk nb)) (pre ++ post)) ++ gbnd ot) ++ gbnd bt /\
+    gglue r = (oo, bo) :: ((o, oi) :: (gglue kt ++ flat_map (fun nb => gglue (blk nb)) (pre ++ post)) ++ gglue ot) ++ gglue bt.
+Proof.
+  intros Hnbs Hnd HpO' HndO' HpB Hkt Hot Hbt Hblk Hooi Hoobo.
+  destruct (NoDup_mid_notin _ _ _ Hnd) as (Hnpre & Hnpost & HndL).
+  destruct (all_but_one_axes kt kn next blocks w (fun nb => [y nb; x nb]) blk wj [o] pre post Hnbs Hnd Hkt Hblk)
+    as (t1 & Ht1 & A1 & A2 & A3 & A4).
+  set (L := pre ++ post) in *. set (n := length L).
+  set (BO := neighbouring_nodes on) in *. set (BB := neighbouring_nodes bn) in *.
+  assert (Hmid : Permutation (pre ++ next :: post) (next :: L)) by (symmetry; apply Permutation_middle).
+  assert (HpB' : Permutation BB (next :: L)) by (rewrite HpB; exact Hmid).
+  assert (HndO : NoDup BO) by (eapply Permutation_NoDup; [symmetry; exact HpO'|exact HndO']).
+  assert (HndB : NoDup BB) by (eapply Permutation_NoDup; [symmetry; exact HpB|exact Hnd]).
+  assert (HLO : forall a, In a L -> In a BO).
+  { intros a Ha. apply (Permutation_in _ (Permutation_sym HpO')). right. exact Ha. }
+  assert (HLB : forall a, In a L -> In a BB).
+  { intros a Ha. apply (Permutation_in _ (Permutation_sym HpB')). right. exact Ha. }
+  assert (Hk : nvirt kn = S n).
+  { rewrite nvirt_nbs, Hnbs. unfold n, L. rewrite !app_length. cbn. nlia. }
+  unfold sandwich_subtree. rewrite Ht1.
+  rewrite (equivalent_legs_ignore kn on next pre post Hnbs Hnd HLO), (equivalent_legs_ignore kn bn next pre post Hnbs Hnd HLB).
+  fold L BO BB. rewrite Hk. replace (S n - 1) with n by nlia. rewrite !nvirt_nbs. fold BO BB.
+  assert (Hlegs : map (fun j => 2 * j) (seq 1 n) = map (fun m => 2 + 2 * m) (seq 0 n)).
+  { rewrite <- seq_shift, map_map. apply map_ext. intros m. nlia. }
+  rewrite Hlegs.
+  cbn [app] in A1.
+  rewrite (node_contract_e t1 ot y BO L _ o [oo; oi] 1 oi (length BO + 1) eq_refl HndO HLO HndL Hot).
+  2:{ cbn. nlia. }
+  2:{ reflexivity. }
+  2:{ exact Hooi. }
+  2:{ rewrite app_length, map_length, seq_length. cbn. unfold n. nlia. }
+  2:{ apply NoDup_app_one; [apply NoDup_map_affine|]. intros Hin. apply in_map_iff in Hin. destruct Hin as (m & E & _). nlia. }
+  2:{ intros i Hi. rewrite A1. cbn [length]. rewrite il_length. fold n. apply in_app_or in Hi. destruct Hi as [Hi|[<-|[]]]; [|nlia].
+      apply in_map_iff in Hi. destruct Hi as (m & <- & Hm). apply in_seq in Hm. nlia. }
+  2:{ rewrite A1, map_app, map_map. cbn [map nth]. f_equal. exact (il_nth_even y x L [wj; o]). }
+  rewrite (filter_rest_one BO L nexto HndO HpO').
+  match goal with |- context [g_tensordot ?tt bt _ _] => set (t2 := tt) end.
+  assert (T2 : gaxes t2 = [wj] ++ map x L ++ [y nexto] ++ [oo]).
+  { unfold t2. cbn [gaxes]. rewrite A1. change (wj :: o :: flat_map (fun nb => [y nb; x nb]) L)
+      with ([wj] ++ [o] ++ flat_map (fun nb => [y nb; x nb]) L).
+    rewrite !dropfrom_app. cbn [length]. change (0 + 1 + 1) with 2. change (0 + 1) with 1.
+    rewrite dropfrom_keep.
+    2:{ intros i Hi Hin. cbn in Hi. apply in_app_or in Hin. destruct Hin as [Hin|[Hin|[]]]; [|nlia].
+        apply in_map_iff in Hin. destruct Hin as (m & E & _). nlia. }
+    rewrite dropfrom_all.
+    2:{ intros i Hi. cbn in Hi. apply in_or_app. right. left. nlia. }
+    unfold id, wire in *. rewrite (il_drop_idx 2 n [1] y x L eq_refl) by (intros e [<-|[]]; nlia).
+    cbn [dropfrom memb existsb Nat.eqb orb map app]. reflexivity. }
+  rewrite (node_contract_e t2 bt x BB L _ oo [bo] 0 bo (length BB) (eq_sym (Nat.add_0_r _)) HndB HLB HndL Hbt).
+  2:{ cbn. nlia. }
+  2:{ reflexivity. }
+  2:{ exact Hoobo. }
+  2:{ rewrite app_length, seq_length. cbn. unfold n. nlia. }
+  2:{ apply NoDup_app_one; [apply seq_NoDup|]. intros Hin. apply in_seq in Hin. nlia. }
+  2:{ intros i Hi. rewrite T2. rewrite !app_length, map_length. cbn [length]. fold n. apply in_app_or in Hi.
+      destruct Hi as [Hi|[<-|[]]]; [apply in_seq in Hi|]; nlia. }
+  2:{ rewrite T2, map_app. cbn [map]. f_equal.
+      - pose proof (nth_seq_block 0 [wj] (map x L) ([y nexto] ++ [oo])) as H. rewrite map_length in H. exact H.
+      - f_equal. assert (E : [wj] ++ map x L ++ [y nexto] ++ [oo] = ([wj] ++ map x L ++ [y nexto]) ++ oo :: []).
+        { rewrite <- !app_assoc. reflexivity. }
+        rewrite E. replace (S n + 1) with (length ([wj] ++ map x L ++ [y nexto])) by (rewrite !app_length, map_length; cbn; unfold n; nlia).
+        apply nth_mid. }
+  rewrite (filter_rest_one BB L next HndB HpB').
+  eexists. split; [reflexivity|]. cbn [gaxes gatoms gbnd gglue].
+  split; [|subst t2; cbn [gatoms gbnd gglue]; rewrite A2, A3, A4; auto].
+  rewrite T2. rewrite !dropfrom_app. cbn [length Nat.add]. rewrite map_length. fold n.
+  rewrite (dropfrom_keep 0 _ [wj]).
+  2:{ intros i Hi Hin. cbn in Hi. apply in_app_or in Hin. destruct Hin as [Hin|[Hin|[]]]; [apply in_seq in Hin|]; nlia. }
+  rewrite (dropfrom_all 1 _ (map x L)).
+  2:{ intros i Hi. rewrite map_length in Hi. fold n in Hi. apply in_or_app. left. apply in_seq. nlia. }
+  rewrite (dropfrom_keep _ _ [y nexto]).
+  2:{ intros i Hi Hin. cbn in Hi. apply in_app_or in Hin. destruct Hin as [Hin|[Hin|[]]]; [apply in_seq in Hin|]; nlia. }
+  rewrite (dropfrom_all _ _ [oo]).
+  2:{ intros i Hi. cbn in Hi. apply in_or_app. right. left. nlia. }
+  cbn [dropfrom memb existsb Nat.eqb orb map app]. reflexivity.
+Qed.
+
+(* an end of the edge: its block towards the link node *)
+Section GlobalL.
+  Variables (woff aoff : nat) (ket op : store).
+  Let ko := open_wire ket. Let oo := out_wire op. Let oi := in_wire op.
+  Let AT (m : id) : list nat := t_atoms ket m ++ t_atoms op m ++ map (Nat.add aoff) (t_atoms ket m).
+  Let IB (m : id) : list wire := t_bnd ket m ++ t_bnd op m ++ map (Nat.add woff) (t_bnd ket m).
+  Let E3 (e : id * id) : list wire := edge3 woff ket op e.
+  Let EB (e : id * id) : list wire := E3 e ++ IB (fst e).
+  Let OP (m : id) : list (wire * wire) := [(ko m, oi m); (oo m, woff + ko m)].
+
+  Lemma env_block_end l m t fuel : wf_end woff ket op l m t -> length (rnodes t) <= fuel ->
+    exists g, env_block fuel woff aoff ket op (rid t) l = Some g /\
+      gaxes g = [ewire ket (rid t) l; ewire op (rid t) m; woff + ewire ket (rid t) l] /\
+      Permutation (gatoms g) (all_atoms3 aoff ket op (rnodes t)) /\
+      Permutation (gbnd g) (flat_map (edge3 woff ket op) (sub_edges t) ++ inner_bnd3 woff ket op (rnodes t)) /\
+      Permutation (gglue g) (open_pairs3 woff ket op (rnodes t)).
+  Proof.
+    destruct t as [n cs]. intros (Hok & Hcs) Hfuel. cbn [rid rcs] in *.
+    destruct fuel as [|f]; [cbn in Hfuel; lia|].
+    destruct Hok as (kn & on & pre & post & Hk & Ho & Hnbs & Hnd & HpO & HndO & Hids & Hkax & Hoax & Hcons & Hop1 & Hop2).
+    destruct (tensor_of_view ket n kn Hk) as (kt & Hkt & Hkt1 & Hkt2 & Hkt3 & Hkt4 & Hkt5).
+    { rewrite Hkax. intros E. apply (f_equal (@length _)) in E. rewrite app_length in E. cbn in E. lia. }
+    destruct (tensor_of_view op n on Ho) as (ot & Hot & Hot1 & Hot2 & Hot3 & Hot4 & Hot5).
+    { rewrite Hoax. intros E. apply (f_equal (@length _)) in E. rewrite app_length in E. cbn in E. lia. }
+    fold ko oo oi in Hkax, Hoax, Hop1, Hop2.
+    set (bt := conj_arr woff aoff kt).
+    assert (Hb2 : gatoms bt = map (Nat.add aoff) (t_atoms ket n)) by (unfold bt; cbn; rewrite Hkt2; reflexivity).
+    assert (Hb3 : gbnd bt = map (Nat.add woff) (t_bnd ket n)) by (unfold bt; cbn; rewrite Hkt3; reflexivity).
+    assert (Hb4 : gglue bt = []) by (unfold bt; cbn; rewrite Hkt4; reflexivity).
+    set (w := ewire ket n) in *. set (y := ewire op n) in *. set (x := fun c : id => woff + ewire ket n c).
+    assert (Hbt1 : gaxes bt = map x (neighbouring_nodes kn) ++ [woff + ko n]).
+    { unfold bt. cbn [conj_arr gaxes]. rewrite Hkt1, Hkax, map_app, map_map. reflexivity. }
+    destruct (NoDup_mid_notin _ _ _ Hnd) as (Hnpre & Hnpost & HndL).
+    (* the statement in the summed form used by the induction *)
+    cut (exists g, env_block (S f) woff aoff ket op n l = Some g /\
+           gaxes g = [w l; y m; x l] /\
+           Permutation (gatoms g) (AT n ++ flat_map AT (flat_map rnodes cs)) /\
+           Permutation (gbnd g) (IB n ++ flat_map EB (flat_map (redges n) cs)) /\
+           Permutation (gglue g) (OP n ++ flat_map OP (flat_map rnodes cs))).
+    { intros (g & Hg & G1 & G2 & G3 & G4). exists g. split; [exact Hg|]. split; [exact G1|].
+      split; [rewrite G2; reflexivity|]. split; [|rewrite G4; reflexivity].
+      rewrite G3. change (flat_map (redges n) cs) with (sub_edges (RN n cs)). unfold EB, E3, IB.
+      rewrite (perm_flat_map_split (edge3 woff ket op)
+                 (fun e => t_bnd ket (fst e) ++ t_bnd op (fst e) ++ map (Nat.add woff) (t_bnd ket (fst e))) (sub_edges (RN n cs))).
+      rewrite <- (flat_map_map (fun c => t_bnd ket c ++ t_bnd op c ++ map (Nat.add woff) (t_bnd ket c)) fst (sub_edges (RN n cs))).
+      rewrite sub_edges_nodes. unfold inner_bnd3. cbn [rnodes rdesc rcs flat_map]. perm_solve. }
+    destruct (children kn) as [|ch0 chs] eqn:Hch.
+    - (* contract_leaf *)
+      pose proof (nbs_leaf kn Hch) as Hl. rewrite Hnbs in Hl.
+      assert (Hpp : pre = [] /\ post = []).
+      { destruct (parent kn); destruct pre as [|a pre']; cbn in Hl; try discriminate.
+        - injection Hl as _ Hl. split; [reflexivity|exact Hl].
+        - injection Hl as _ Hl. destruct pre'; discriminate. }
+      destruct Hpp as [-> ->]. cbn [app] in *.
+      apply map_eq_nil_inv in Hids. subst cs. cbn [flat_map app].
+      assert (HnbO : neighbouring_nodes on = [m]).
+      { apply Permutation_sym, Permutation_length_1_inv in HpO. exact HpO. }
+      assert (Hvk : nvirt kn = 1) by (rewrite nvirt_nbs, Hnbs; reflexivity).
+      assert (Hvo : nvirt on = 1) by (rewrite nvirt_nbs, HnbO; reflexivity).
+      rewrite (env_block_leaf f woff aoff ket op n l kn on kt ot Hk Ho Hkt Hot Hch). fold bt.
+      rewrite (sandwich_leaf_axes kt ot bt kn on kn (w l) (y m) (x l) (ko n) (oo n) (oi n) (woff + ko n) Hvk Hvo Hvk).
+      2:{ rewrite Hkt1, Hkax, Hnbs. reflexivity. }
+      2:{ rewrite Hot1, Hoax, HnbO. reflexivity. }
+      2:{ rewrite Hbt1, Hnbs. reflexivity. }
+      2:{ exact Hop1. }
+      2:{ exact Hop2. }
+      eexists. split; [reflexivity|]. cbn [gaxes gatoms gbnd gglue].
+      rewrite Hkt2, Hkt3, Hkt4, Hot2, Hot3, Hot4, Hb2, Hb3, Hb4. unfold AT, IB, OP. cbn [app]. rewrite !app_nil_r.
+      repeat split; reflexivity.
+    - (* contract_subtrees_using_dictionary *)
+      rewrite (env_block_node f woff aoff ket op n l kn on kt ot Hk Ho Hkt Hot).
+      2:{ rewrite Hch. discriminate. }
+      fold bt. rewrite Hnbs, others_mid by assumption. rewrite <- Hids.
+      set (blk := blkE_of woff aoff ket op f n kt).
+      assert (Hsub : forall c, In c cs ->
+                env_block f woff aoff ket op (rid c) n = Some (blk (rid c)) /\
+                gaxes (blk (rid c)) = [w (rid c); y (rid c); x (rid c)] /\
+                Permutation (gatoms (blk (rid c))) (flat_map AT (rnodes c)) /\
+                Permutation ([w (rid c); y (rid c); x (rid c)] ++ gbnd (blk (rid c))) (flat_map EB (redges n c)) /\
+                Permutation (gglue (blk (rid c))) (flat_map OP (rnodes c))).
+      { intros c Hc. destruct (env_block_closed woff aoff ket op (Some n) c (Hcs c Hc) n f eq_refl) as (g & Hg & HH).
+        - cbn [rnodes length] in Hfuel. pose proof (flat_map_length_in rnodes cs c Hc). lia.
+        - unfold blk, blkE_of. rewrite Hg. split; [reflexivity|].
+          destruct (Hcons (rid c) (in_map rid cs c Hc)) as (C1 & C2).
+          unfold edge3 in HH. cbn [fst snd] in HH. rewrite C1, C2 in HH. exact HH. }
+      assert (Hidc : forall a, In a (map rid cs) -> exists c, In c cs /\ rid c = a).
+      { intros a Ha. apply in_map_iff in Ha. destruct Ha as (c & E & Hc). eauto. }
+      assert (Hblocks : all_some (map (fun c => option_map (fun b => (c, b)) (env_block f woff aoff ket op c n)) (map rid cs))
+                        = Some (map (fun c => (c, blk c)) (map rid cs))).
+      { apply all_some_total. intros a Ha. destruct (Hidc a Ha) as (c & Hc & <-).
+        destruct (Hsub c Hc) as (-> & _). reflexivity. }
+      rewrite Hblocks.
+      destruct (sandwich_subtree_axes_gen kt ot bt kn on kn l m (map (fun c => (c, blk c)) (map rid cs)) w y x blk
+                  (w l) (ko n) (oo n) (oi n) (woff + ko n) pre post Hnbs)
+        as (g & Hg & G1 & G2 & G3 & G4).
+      { exact Hnd. }
+      { exact HpO. }
+      { exact HndO. }
+      { rewrite Hnbs. reflexivity. }
+      { rewrite Hkt1, Hkax, Hnbs, map_app. cbn [map]. rewrite <- !app_assoc. reflexivity. }
+      { rewrite Hot1. exact Hoax. }
+      { exact Hbt1. }
+      { intros nb Hnb. rewrite <- Hids in Hnb. split; [apply aget_map_pair; exact Hnb|].
+        destruct (Hidc nb Hnb) as (c & Hc & <-). apply Hsub. exact Hc. }
+      { exact Hop1. }
+      { exact Hop2. }
+      exists g. split; [exact Hg|]. rewrite <- Hids in G2, G3, G4.
+      split; [exact G1|].
+      rewrite G2, G3, G4, Hkt2, Hkt3, Hkt4, Hot2, Hot3, Hot4, Hb2, Hb3, Hb4.
+      pose proof (perm_children (fun c => gatoms (blk c)) AT cs (fun c Hc => proj1 (proj2 (proj2 (Hsub c Hc))))) as P1.
+      pose proof (perm_children_e (fun c => [w c; y c; x c] ++ gbnd (blk c)) EB n cs
+                    (fun c Hc => proj1 (proj2 (proj2 (proj2 (Hsub c Hc)))))) as P2.
+      pose proof (perm_children (fun c => gglue (blk c)) OP cs (fun c Hc => proj2 (proj2 (proj2 (proj2 (Hsub c Hc)))))) as P3.
+      rewrite <- (perm_edge_sum3 w y x (fun c => gbnd (blk c)) (map rid cs)) in P2.
+      rewrite <- P1, <- P2, <- P3. unfold AT at 1. unfold IB at 1. unfold OP at 1.
+      split; [|split]; perm_solve.
+  Qed.
+End GlobalL.
+
+(* np.tensordot(e1, e2, axes=(1,1)) of two blocks facing each other: the operator wire of the edge is bound *)
+Lemma g_tensordot_11 e1 e2 a1 c1 a2 c2 o :
+  gaxes e1 = [a1; o; c1] -> gaxes e2 = [a2; o; c2] ->
+  g_tensordot e1 e2 [1] [1] =
+  Some {| gaxes := [a1; c1; a2; c2]; gatoms := gatoms e1 ++ gatoms e2;
+          gbnd := o :: gbnd e1 ++ gbnd e2; gglue := gglue e1 ++ gglue e2 |}.
+Proof.
+  intros H1 H2. rewrite g_tensordot_ok.
+  - rewrite H1, H2. cbn [map nth combine filter fst snd]. rewrite Nat.eqb_refl. cbn [negb map fst app].
+    cbn [dropfrom memb existsb Nat.eqb orb app]. reflexivity.
+  - reflexivity.
+  - intros i [<-|[]]. rewrite H1. cbn. lia.
+  - intros i [<-|[]]. rewrite H2. cbn. lia.
+  - constructor; [intros []|constructor].
+  - constructor; [intros []|constructor].
+Qed.
+
+Lemma wf_end_nodes woff ket op l m t : wf_end woff ket op l m t -> forall z, In z (rnodes t) -> In z (akeys (nodes ket)).
+Proof.
+  destruct t as [n cs]. intros (Hok & Hcs) z Hz. cbn [rid rcs rnodes] in *. destruct Hz as [<-|Hz].
+  - destruct Hok as (kn & on & pre & post & Hk & _). eapply aget_akeys; eassumption.
+  - apply in_flat_map in Hz. destruct Hz as (c & Hc & Hz). eapply wf_env_nodes; [apply Hcs; exact Hc|exact Hz].
+Qed.
+
+Lemma rid_in_rnodes t : In (rid t) (rnodes t).
+Proof. destruct t. left. reflexivity. Qed.
+
+(* the link clause: for every tree, every edge and independent neighbour orders, the effective link Hamiltonian built
+   from fresh blocks is the complete network of both sides of the edge, the operator wire of the edge bound, rows =
+   conjugate copies of the link tensor's legs, columns = the link tensor's legs, in the link tensor's leg order *)
+Theorem heff_link_correct woff aoff ket op a b l ta tb :
+  wf_link woff ket op a b l ta tb ->
+  exists g, heff_link woff aoff ket op a b l = Some g /\ diagram_is g (link_expected woff aoff ket op a b l ta tb).
+Proof.
+  intros (Ha & Hb & Hnd & Hea & Heb & (ln & q & c & Hl & Hpl & Hcl & Hqc & Hlax) & Wa & Wb & Wo).
+  assert (Hsize : length (rnodes ta ++ rnodes tb) <= length (nodes ket)).
+  { replace (length (nodes ket)) with (length (akeys (nodes ket))) by apply map_length.
+    apply NoDup_incl_length; [exact Hnd|]. intros z Hz. apply in_app_or in Hz.
+    destruct Hz as [Hz|Hz]; [exact (wf_end_nodes _ _ _ _ _ _ Hea z Hz)|exact (wf_end_nodes _ _ _ _ _ _ Heb z Hz)]. }
+  rewrite app_length in Hsize.
+  assert (Hab : a <> b).
+  { intros E.
+    assert (In a (rnodes ta)) by (rewrite <- Ha; apply rid_in_rnodes).
+    assert (In a (rnodes tb)) by (rewrite E, <- Hb; apply rid_in_rnodes).
+    revert Hnd H H0. generalize (rnodes ta) (rnodes tb). clear. intros l1 l2 Hnd H1 H2.
+    induction l1 as [|z t IH]; [destruct H1|]. cbn in Hnd. inversion Hnd as [|? ? Hni Hnd']; subst.
+    destruct H1 as [->|H1]; [apply Hni; apply in_or_app; right; exact H2|apply IH; assumption]. }
+  destruct (env_block_end woff aoff ket op l b ta (length (nodes ket)) Hea ltac:(lia)) as (ea & Eea & A1 & A2 & A3 & A4).
+  destruct (env_block_end woff aoff ket op l a tb (length (nodes ket)) Heb ltac:(lia)) as (eb & Eeb & B1 & B2 & B3 & B4).
+  rewrite Ha in Eea, A1. rewrite Hb in Eeb, B1. rewrite <- Wo in B1.
+  unfold heff_link. rewrite Hl, Hpl, Hcl, Eea, Eeb.
+  unfold diagram_is, link_expected.
+  assert (Hat : Permutation (gatoms ea ++ gatoms eb) (all_atoms3 aoff ket op (rnodes ta ++ rnodes tb))).
+  { unfold all_atoms3 in *. rewrite flat_map_app, A2, B2. reflexivity. }
+  assert (Hgl : Permutation (gglue ea ++ gglue eb) (open_pairs3 woff ket op (rnodes ta ++ rnodes tb))).
+  { unfold open_pairs3 in *. rewrite flat_map_app, A4, B4. reflexivity. }
+  assert (Hbd : Permutation (ewire op a b :: gbnd ea ++ gbnd eb)
+                  (ewire op a b :: flat_map (edge3 woff ket op) (sub_edges ta ++ sub_edges tb) ++
+                   inner_bnd3 woff ket op (rnodes ta ++ rnodes tb))).
+  { constructor. unfold inner_bnd3 in *. rewrite !flat_map_app, A3, B3. perm_solve. }
+  destruct Hqc as [[-> ->]|[-> ->]].
+  - (* the link's parent is a *)
+    assert (Em : memb a [b] = false) by (apply cl_memb_false; intros [E|[]]; congruence).
+    rewrite Em, (g_tensordot_11 ea eb _ _ _ _ _ A1 B1).
+    eexists. split; [reflexivity|]. cbn [gaxes gatoms gbnd gglue map nth].
+    split; [rewrite Hlax, <- Wa, <- Wb; reflexivity|].
+    split; [exact Hat|]. split; [exact Hbd|exact Hgl].
+  - (* the link's parent is b *)
+    assert (Em : memb a [a] = true) by (apply cl_memb_In; left; reflexivity).
+    rewrite Em, (g_tensordot_11 eb ea _ _ _ _ _ B1 A1).
+    eexists. split; [reflexivity|]. cbn [gaxes gatoms gbnd gglue map nth].
+    split; [rewrite Hlax, <- Wa, <- Wb; reflexivity|].
+    split; [rewrite <- Hat; perm_solve|]. split; [rewrite <- Hbd; perm_solve|rewrite <- Hgl; perm_solve].
+Qed.
+
+(* ---- the link hypothesis checker is sound -------------------------------------------------------------------------------------------- *)
+Lemma node_okLb_sound woff ket op l m n cs : node_okLb woff ket op l m n cs = true -> node_okL woff ket op l m n cs.
+Proof.
+  unfold node_okLb. destruct (aget n (nodes ket)) as [kn|] eqn:Hk; [|discriminate].
+  destruct (aget n (nodes op)) as [on|] eqn:Ho; [|discriminate].
+  intros H. repeat (apply andb_prop in H; let H' := fresh "H" in destruct H as [H H']).
+  apply cl_nodupb in H. apply cl_memb_In in H8.
+  destruct (in_split _ _ H8) as (pre & post & Hnbs).
+  pose proof H as Hnd. rewrite Hnbs in Hnd.
+  destruct (NoDup_mid_notin _ _ _ Hnd) as (Hnpre & Hnpost & _).
+  assert (Hoth : others l (neighbouring_nodes kn) = pre ++ post) by (rewrite Hnbs; apply others_mid; assumption).
+  rewrite Hoth in *.
+  exists kn, on, pre, post. repeat split; auto using cl_list_eqb, perm_of_nodupb_sound.
+  - apply cl_nodupb. assumption.
+  - rewrite forallb_forall in H2. specialize (H2 c H9). apply andb_prop in H2. apply Nat.eqb_eq. apply H2.
+  - rewrite forallb_forall in H2. specialize (H2 c H9). apply andb_prop in H2. apply Nat.eqb_eq. apply H2.
+  - apply negb_true_iff, Nat.eqb_neq in H1. exact H1.
+  - apply negb_true_iff, Nat.eqb_neq in H0. exact H0.
+Qed.
+
+Lemma wf_endb_sound woff ket op l m t : wf_endb woff ket op l m t = true -> wf_end woff ket op l m t.
+Proof.
+  unfold wf_endb, wf_end. intros H. apply andb_prop in H. destruct H as [H1 H2]. split; [apply node_okLb_sound; exact H1|].
+  intros c Hc. apply wf_envb_sound. rewrite forallb_forall in H2. apply H2. exact Hc.
+Qed.
+
+Theorem wf_linkb_correct woff aoff ket op a b l :
+  wf_linkb woff ket op a b l = true ->
+  exists ta tb g,
+    tree_from (S (length (nodes ket))) ket (Some l) a = Some ta /\
+    tree_from (S (length (nodes ket))) ket (Some l) b = Some tb /\
+    heff_link woff aoff ket op a b l = Some g /\ diagram_is g (link_expected woff aoff ket op a b l ta tb).
+Proof.
+  unfold wf_linkb.
+  destruct (tree_from (S (length (nodes ket))) ket (Some l) a) as [ta|]; [|discriminate].
+  destruct (tree_from (S (length (nodes ket))) ket (Some l) b) as [tb|]; [|discriminate].
+  destruct (aget l (nodes ket)) as [ln|] eqn:Hl; [|discriminate].
+  intros H. repeat (apply andb_prop in H; let H' := fresh "H" in destruct H as [H H']).
+  destruct (parent ln) as [q|] eqn:Hp; [|discriminate]. destruct (children ln) as [|c [|c' r]] eqn:Hc; try discriminate.
+  apply andb_prop in H3. destruct H3 as [Hqc Hax].
+  assert (Hw : wf_link woff ket op a b l ta tb).
+  { unfold wf_link.
+    split; [apply Nat.eqb_eq; exact H|]. split; [apply Nat.eqb_eq; exact H7|]. split; [apply cl_nodupb; exact H6|].
+    split; [apply wf_endb_sound; exact H5|]. split; [apply wf_endb_sound; exact H4|].
+    split.
+    { exists ln, q, c. split; [exact Hl|]. split; [exact Hp|]. split; [exact Hc|]. split.
+      - apply orb_prop in Hqc. destruct Hqc as [E|E]; apply andb_prop in E; destruct E as [E1 E2];
+          apply Nat.eqb_eq in E1; apply Nat.eqb_eq in E2; [left|right]; split; assumption.
+      - apply cl_list_eqb. exact Hax. }
+    split; [apply Nat.eqb_eq; exact H2|]. split; [apply Nat.eqb_eq; exact H1|apply Nat.eqb_eq; exact H0]. }
+  destruct (heff_link_correct woff aoff ket op a b l ta tb Hw) as (g & Hg & Hd).
+  exists ta, tb, g. auto.
+Qed.
